@@ -22,26 +22,26 @@ exec(open(os.path.join(HERE, "tools", "claims.py")).read())
 
 # deciding methods added after the first build (appended to the technique named in claims.py)
 TECH_ADD = {
- "C01": "builtin arity table (registered parameter count vs check_num_args); deep-pass completeness table",
+ "C01": "builtin arity table (registered parameter count vs check_num_args); deep-pass completeness table; producer/consumer agreement of the object-comprehension disambiguation (scripted member sequences, no reachable unreachable!())",
  "C02": "connective and division-guard tables; def-use order rule for comprehension shadowing; visibility query and partition rules",
  "C03": "weak-count exactness: every stored handle is traced on every path",
- "C04": "once-cell memo and lazy-argument tables; small-array sort/set table; literal-only table of the finished-thunk shortcut",
- "C05": "regular-language extraction of string predicates from MIR (automata product / emptiness against the YAML 1.2 core-schema patterns and against the escaper's raw set); sibling cross-check of the four manifesters; origin analysis of text sinks; field-order comparison provenance",
+ "C04": "once-cell memo and lazy-argument tables; small-array sort/set table; literal-only table of the finished-thunk shortcut; shared-layer-environment rule for scheduled object fields",
+ "C05": "regular-language extraction of string predicates from MIR (automata product / emptiness against the YAML 1.2 core-schema patterns and against the escaper's raw set); sibling cross-check of the four manifesters; origin analysis of text sinks; field-order comparison provenance; removal-marker range arithmetic of the field list (C07.R8)",
  "C06": "gate soundness table over classify(); float->int cast classification; literal/printer provenance",
- "C07": "merge table of field states; layer-index provenance; field-read analysis of the object-add shortcut; visibility partition rule",
+ "C07": "merge table of field states; layer-index provenance; field-read analysis of the object-add shortcut; visibility partition rule; concrete evaluation of the removal-marker index arithmetic of every reader/writer pair",
  "C08": "emptiness / early-exit tables; visibility-aware equality",
  "C09": "default-argument environment origin",
- "C10": "tail-position and callee-kind x tailstrict tables; cache-key origin of the import cycle",
+ "C10": "tail-position and callee-kind x tailstrict tables; cache-key origin of the import cycle; consumer-of-forced-element coverage in the state-push graph",
  "C11": "request schedule table; session maps frozen behind a shared reference; memo-cell origin rule",
  "C12": "flush / closed-stdout path rules; var[=val] split table; deep-pass completeness table",
  "C13": "adapter whitelist on the -J list",
- "C14": "escape, number-transition, digit-retention, span-end and surrogate-class tables",
- "C15": "slice-layout, visibility-token and suffix-chaining tables",
- "C16": "renderer margin rule; guard / packed-variable identity for the span-id bit fields",
+ "C14": "escape, number-transition, digit-retention, span-end and surrogate-class tables; std look-alike who-may-call deny list with decoder reachability",
+ "C15": "slice-layout, visibility-token and suffix-chaining tables; level provenance of resumed binary levels; comprehension disambiguation agreement",
+ "C16": "renderer margin rule; guard / packed-variable identity for the span-id bit fields; append/length order on the span interner tables",
  "C17": "binary-search and pivot tables; run-flush index dependency",
- "C18": "join-separator and trim class tables",
- "C19": "producer/consumer operand agreement and star-argument cursor tables; must-pass-through of the argument state machine",
- "C20": "digit-value, parseInt alphabet and base64 length rules; escaper table and bulk-copy guard language",
+ "C18": "join-separator and trim class tables; unit labels through tuples, references and closure captures; std look-alike deny list",
+ "C19": "producer/consumer operand agreement and star-argument cursor tables; must-pass-through of the argument state machine; precision-0 reachability of zero trimming in the float renderers",
+ "C20": "digit-value, parseInt alphabet and base64 length rules; escaper table and bulk-copy guard language; scanner-to-automaton extraction (SCANFSM) with language equality/inclusion against RFC 8259 §6 and <f64 as FromStr>; std look-alike deny list and sign-accepting integer parsers unreachable from the text decoders",
 }
 
 props = [json.loads(l)["id"] for l in open(os.path.join(HERE, "properties.jsonl"))]
@@ -96,7 +96,7 @@ man = {
         {"name": "rsj-facts", "path": "driver/", "serves_properties": sorted(CLAIMED),
          "kind_free_text": "rustc_private driver (RUSTC_WORKSPACE_WRAPPER under cargo +nightly check): dumps MIR, ADTs, impls, visibility and an instance-level call graph of the three workspace crates; nothing is executed"},
         {"name": "rules", "path": "rules/", "serves_properties": sorted(CLAIMED),
-         "kind_free_text": "Python engines over the facts: KWALK (key-concrete path walker / finite-domain decision tables), CG (instance call graph, SCC, who-may-X), PROV (origins, gates, must-pass-through), HEIGHT (counter typestate), UNITS (byte/char unit inference), TY (ownership graph)"},
+         "kind_free_text": "Python engines over the facts: KWALK (key-concrete path walker / finite-domain decision tables), CG (instance call graph, SCC, who-may-X), PROV (origins, gates, must-pass-through), HEIGHT (counter typestate), UNITS (byte/char unit inference), TY (ownership graph), PUSHGRAPH (state-push graph with frame coverage), ENVFLOW (static environments), DFA/STRPRED/SCANFSM (regular languages of predicates and scanner loops extracted from MIR), RENAMES (structural matching of renamed functions, types, variants and fields against tables/ref_shapes.json so that the rules keep addressing the program by its reference names)"},
     ],
     "checks": checks,
     "not_applicable": not_app,
